@@ -354,7 +354,7 @@ class ConcCtx:
 # --------------------------------------------------------------------------------------------
 def run_symbolic(case):
   """Returns a result dict for one case (symbolic mode)."""
-  exr = Explorer(timeout_ms=case.get('feas_timeout_ms', 20000),
+  exr = Explorer(timeout_ms=case.get('feas_timeout_ms', 8000),
                  max_paths=case.get('max_paths', 5000), name=case['name'])
   ctx = SymCtx(exr, case, proof_timeout_ms=case.get('proof_timeout_ms', 30000))
   before = core.stats_snapshot()
